@@ -805,6 +805,9 @@ func (conv *converter) toStringValue(x ast.Node) (string, bool) {
 		if !ok || typ.Type.String() != "string" {
 			return "", false
 		}
+		if typ.Value == nil || typ.Value.Kind() != constant.String {
+			return "", false // A string-typed expression that is not a constant
+		}
 		str := constant.StringVal(typ.Value)
 		return str, true
 	}
